@@ -20,7 +20,10 @@ var registry = map[string]func(*rules.Ctx){
 	"C04": rules.C04,
 	"C05": rules.C05,
 	"C06": rules.C06,
+	"C07": rules.C07,
+	"C08": rules.C08,
 	"C09": rules.C09,
+	"C10": rules.C10,
 	"C12": rules.C12,
 	"C15": rules.C15,
 	"C19": rules.C19,
